@@ -198,6 +198,23 @@ def run(ctx):
                     ok = derived_from_compared(der, f, eqf)
                 ctx.check("R3", K, ok, f"match-reads-uncompared:{f}", f"match/force_* attribute {f!r} is compared by equality (or derived from a compared input)",
                           f"{K.qual}: match/force_* read {f!r}, which equality ({sorted(eqf)}) ignores: equal instances can match differently")
+    # the exemptions above are claims about the code ("only the logging differs"): check them on every run
+    for (cname, attr), why in sorted(M1_EXEMPT.items()):
+        K = next((c for c in P.all_classes() if c.name == cname), None)
+        ctx.require(K is not None, f"exempted class {cname} not found")
+        n_g = 0
+        for m in K.methods.values():
+            me = m.params()[0] if m.params() else "self"
+            for n in A.body_walk(m.node):
+                if isinstance(n, ast.If) and any(isinstance(x, ast.Attribute) and x.attr == attr and isinstance(x.value, ast.Name) and x.value.id == me for x in ast.walk(n.test)):
+                    n_g += 1
+                    def inert(stmts):
+                        return all(isinstance(st, ast.Pass) or (isinstance(st, ast.Expr) and (isinstance(st.value, ast.Constant) or (isinstance(st.value, ast.Call) and (dotted(st.value.func) or "").startswith(("logger.", "logging.", "warnings."))))) for st in stmts)
+                    ctx.check("R3", m, inert(n.body) and inert(n.orelse), f"exempt-attr-decides:{cname}.{attr}",
+                              f"{cname}.{attr} (not compared by equality: {why}) only switches logging in {m.name}",
+                              f"{cname}.{m.name}: `{attr}`, which equality and hash ignore, now decides more than logging (`{A.unparse(n.test)[:40]}` guards "
+                              f"{'a return / raise / assignment'}): two equal, equally hashed restrictions behave differently and a cache keyed by the restriction serves one the other's answer", node=n)
+        ctx.check("R3", K, n_g >= 1, f"exempt-attr-still-read:{cname}.{attr}", f"{cname}.{attr} is still read under a test (exemption not stale)")
     ctx.require(n_struct >= 15, f"only {n_struct} classes with structural equality analysed; expected >= 15")
     ctx.floor("R1", 15)
     ctx.floor("R3", 20)
